@@ -29,7 +29,7 @@ MAP = {"<": "l", ">": "g", "&": "n", '"': "q", "\\": "b", "*": "s", "_": "u", "`
 LITERALS = [
     "<b>bold</b>", "a<b", "a < b > c", "</td></tr>", "<script>alert(1)</script>", "<!-- x", "x & y", "&amp; &lt;", "&#60;x", 'say "hi"', "it''s", "a\\b", "c:\\dir\\n",
     "two  blanks", "   lead", "*emph* _u_", "[link](http://x)", "`code`", "# head", "a | b | c", "$x^2$", "{!inc!}", "~~s~~", "<img src=x onerror=y>", "100% <done>",
-    "don''t; <b>stop</b>", 'say "hi; <x> there', "a;b ''q'' \"r\" ;c",
+    "don''t; <b>stop</b>", 'say "hi; <x> there', "\\", "c:\\dir\\", "\\\\host\\",  # (a backslash is an ordinary character, also right before the closing quote) "a;b ''q'' \"r\" ;c",
     "@note not a note", "[[not_a_link]]", "(a,i0,'<',f8.3)", "a,b;c", "Mixed CASE <B>Text</B>", "UPPER & lower", "tab\there" if False else "a->b", "<= >= /= ==",
 ]
 EXPRS = ["merge(1, 2, ka < kb)", "merge(1, 2, ka<kb)", "merge(4, 8, ka > kb)", "merge(1, 2, ka <= kb .and. kb >= ka)", "merge(2, 3, ka /= kb)", "merge(2, 3, ka == kb)", "max(ka, kb)",
